@@ -131,7 +131,10 @@ CHECKS = {
             "C10_published_target_undisturbed); the complement of the Coq predicate url_plain is the known class "
             "url_encoded_target_name (C10_url_known_class_witnesses: not found, encoded dots leave the directory, a question "
             "mark cuts the name, a colon makes it a URL); url_join and put-then-fetch are compared with the url crate, a real "
-            "directory and the real FilesystemTransport on about 3 300 names per run. Not modelled: update_delegated_targets "
+            "directory and the real FilesystemTransport on about 3 300 names per run (thorough: 80 000); whatever TargetName::new "
+            "makes of a relative name over the unreserved characters and '/' is plain, alone and behind the hex digest "
+            "(C10_safe_names_are_plain, also run on the real code); a file planted where the percent-decoded spelling of a name "
+            "points is never what a request for the encoded name gets (decoded twins). Not modelled: update_delegated_targets "
             "on the top-level role or bringing new delegated roles, add_role, the digest check and the copy/symlink choice of "
             "target_path; these, odd names, "
             "copy/symlink publication are covered by the correspondence runs with an independent Python tracker of what was "
